@@ -293,6 +293,55 @@ def slow_callback_case():
                 server_expected=[], server_stored=[], error=None, aborted=False)
 
 
+def silent_connection_case():
+    """Serving side: peers that open the TCP connection and then say nothing (a port scanner, a load balancer's health
+    probe, a client that hangs before its A-ASSOCIATE-RQ), some of them half-way through a request.  Whatever the server
+    does about THEM (ARTIM will end them), the other peers must be accepted and served meanwhile."""
+    import socket
+    from pynetdicom2 import applicationentity as aemod, sopclass
+    srv = aemod.AE('SERVER', 0).add_scp(sopclass.verification_scp)
+    got = []
+    lock = threading.Lock()
+
+    def one(port, k):
+        cli = aemod.ClientAE('FAST%d' % k).add_scu(sopclass.verification_scu)
+        cli.timeout = 12
+        t0 = time.time()
+        try:
+            with cli.request_association(loopback.remote(port)) as assoc:
+                res = 'client%d:echo:%d' % (k, int(assoc.get_scu(sopclass.VERIFICATION_SOP_CLASS)(1)))
+        except Exception as e:  # noqa
+            res = 'client%d:%s' % (k, type(e).__name__)
+        dt = time.time() - t0
+        if dt > 4.0:                    # far beyond what a loopback echo needs
+            res += ':held-up-%.0fs' % dt
+        with lock:
+            got.append(res)
+    silent = []
+    with loopback.serving(srv) as port:
+        try:
+            for k in range(3):
+                c = socket.create_connection(('127.0.0.1', port), timeout=5)
+                if k == 1:
+                    c.sendall(b'\x01\x00\x00\x00')        # the first bytes of a request, then nothing
+                silent.append(c)
+            time.sleep(0.3)
+            ts = [threading.Thread(target=one, args=(port, k)) for k in range(3)]
+            for t in ts:
+                t.daemon = True
+                t.start()
+            for t in ts:
+                t.join(15)
+        finally:
+            for c in silent:
+                try:
+                    c.close()
+                except OSError:
+                    pass
+    return dict(client='silent-connections', expected=['client%d:echo:0' % k for k in range(3)], got=sorted(got),
+                server_expected=[], server_stored=[], error=None, aborted=False)
+
+
 def same_instance_in_flight_case(workdir):
     """Directory-backed storage entity, the SAME SOP instance UID in flight on two associations at once: association A
     (a raw peer) has sent its C-STORE command and holds back the data set while association B stores the same
@@ -427,7 +476,7 @@ def main(tier, seed):
     n_clients = 8 if tier == 'quick' else 40
     loops = loopback_concurrency(rng, n_clients, tier)
     ids = msg_id_threads(8, 200) + msg_id_threads(1, 70000)
-    loops = loops + [stalled_peer_case(), slow_callback_case()]
+    loops = loops + [stalled_peer_case(), slow_callback_case(), silent_connection_case()]
     import shutil
     wd = os.path.join(common.BUILD, 'c20-%d' % os.getpid())
     shutil.rmtree(wd, ignore_errors=True)
@@ -457,12 +506,15 @@ def main(tier, seed):
                    'threads stepped one iteration at a time in seeded interleavings (each compared with the model and with '
                    'its solo run); %d concurrent loopback clients (echo, 1..3 stores with distinct data, C-FIND with '
                    'client-specific results, every fifth aborting) against one server entity; one requesting entity with a peer that '
-                   'withholds its A-ASSOCIATE-AC and a healthy one; _new_msg_id in 8 threads'
+                   'withholds its A-ASSOCIATE-AC and a healthy one; three connections that stay silent while three clients are served; '
+                   'the encoding functions from four threads at once (harness/race.py); _new_msg_id in 8 threads'
                    % (6 if tier == 'quick' else 60, n_clients))
     cov['distribution'] = dict(audit_findings=len(writes), interleaved_providers=len(terms), loopback_clients=n_clients,
                                aborting_clients=sum(1 for r in loops if r and r['aborted']),
                                client_errors=sum(1 for r in loops if r and r['error']))
     cov['samples'] = [inter[0][0], dict((k, v) for k, v in (loops[1] or {}).items())]
+    import race
+    dec.concurrent_use(race.ALL, rounds=150 if tier == 'quick' else 1500)
     for w in writes:
         dec.report(dict(w, kind='shared-state-write', theorem='the code no longer has the separated shape C20_isolation assumes'), no_input=True)
     live = [c for c in inter if c[1] is not None]
